@@ -29,6 +29,7 @@ import (
 func (g *Gen) register() {
 	g.registerBase()
 	g.add("basket_create", g.genBasketCreate)
+	g.add("prefix_basket", g.genPrefixBasket)
 	g.add("put", g.genPut)
 	g.add("take", g.genTake)
 	g.add("basket_fee", g.genBasketFee)
@@ -147,6 +148,78 @@ func (g *Gen) genBasketCreate() *eng.Tx {
 		m.Fee = sdk.Coins{*f}
 	}
 	return tx(m)
+}
+
+// genPrefixBasket: two classes of one credit type whose ids are string prefixes of each other (C10 /
+// C100, B10 / B100). A basket that allows only ONE of them is created, then a batch of the OTHER class is
+// issued to an actor who puts it into that basket (must be refused: the class is not on the list), then a
+// batch of the allowed class is put (must be admitted).
+func (g *Gen) genPrefixBasket() *eng.Tx {
+	type pair struct{ listed, other *baseapi.Class }
+	var ps []pair
+	hasProj := map[uint64]*baseapi.Project{}
+	for _, p := range g.V.ProjectList {
+		if hasProj[p.ClassKey] == nil {
+			hasProj[p.ClassKey] = p
+		}
+	}
+	for _, x := range g.V.ClassList {
+		for _, y := range g.V.ClassList {
+			if x.Key != y.Key && strings.HasPrefix(y.Id, x.Id) && x.CreditTypeAbbrev == y.CreditTypeAbbrev && hasProj[x.Key] != nil && hasProj[y.Key] != nil &&
+				len(g.V.Issuers[x.Key]) > 0 && len(g.V.Issuers[y.Key]) > 0 {
+				ps = append(ps, pair{y, x}, pair{x, y})
+			}
+		}
+	}
+	if len(ps) == 0 {
+		return g.genPrefixProject()
+	}
+	pr := ps[g.R.Intn(len(ps))]
+	g.basketSeq++
+	name := fmt.Sprintf("PB%d", g.basketSeq)
+	denom := "eco.u" + pr.listed.CreditTypeAbbrev + "." + name
+	holder := g.actor()
+	s, e := time.Date(2020, 1, 1, 0, 0, 0, 0, time.UTC), time.Date(2021, 1, 1, 0, 0, 0, 0, time.UTC)
+	issue := func(c *baseapi.Class, tag string) func() *eng.Tx {
+		return func() *eng.Tx {
+			iss := sortedKeys(g.V.Issuers[c.Key])
+			p := hasProj[c.Key]
+			if len(iss) == 0 || p == nil {
+				return nil
+			}
+			return &eng.Tx{Msgs: []sdk.Msg{&basetypes.MsgCreateBatch{Issuer: iss[0], ProjectId: p.Id, Metadata: "prefix-basket", StartDate: &s, EndDate: &e,
+				Issuance: []*basetypes.BatchIssuance{{Recipient: holder, TradableAmount: "50"}}}}, Tag: tag}
+		}
+	}
+	put := func(c *baseapi.Class, tag string) func() *eng.Tx {
+		return func() *eng.Tx {
+			// the newest batch of that class the holder has credits of
+			var bd string
+			for _, b := range g.V.BatchList {
+				if p := g.V.Projects[b.ProjectKey]; p != nil && p.ClassKey == c.Key {
+					if t, _, _ := g.V.BalOf(holder, b.Key); t != nil && t.Sign() > 0 {
+						bd = b.Denom
+					}
+				}
+			}
+			if bd == "" {
+				return nil
+			}
+			return &eng.Tx{Msgs: []sdk.Msg{&baskettypes.MsgPut{Owner: holder, BasketDenom: denom, Credits: []*baskettypes.BasketCredit{{BatchDenom: bd, Amount: "7.5"}}}}, Tag: tag}
+		}
+	}
+	g.script = append(g.script,
+		issue(pr.other, "prefix_basket/issue-unlisted"),
+		put(pr.other, "prefix_basket/put-unlisted"),
+		issue(pr.listed, "prefix_basket/issue-listed"),
+		put(pr.listed, "prefix_basket/put-listed"))
+	m := &baskettypes.MsgCreate{Curator: g.actor(), Name: name, Description: "prefix", DisableAutoRetire: g.chance(0.5), CreditTypeAbbrev: pr.listed.CreditTypeAbbrev, AllowedClasses: []string{pr.listed.Id}}
+	if g.V.BasketFee != nil && g.V.BasketFee.Fee != nil {
+		if f := storedFee(g.V.BasketFee.Fee); f != nil {
+			m.Fee = sdk.Coins{*f}
+		}
+	}
+	return &eng.Tx{Msgs: []sdk.Msg{m}, Tag: "prefix_basket"}
 }
 
 func (g *Gen) basket() *basketapi.Basket {
@@ -468,7 +541,11 @@ func (g *Gen) genUpdateCurator() *eng.Tx {
 	if signer == right {
 		remember(g.formerCurators, bk.BasketDenom, right)
 	}
-	return tx(&baskettypes.MsgUpdateCurator{Curator: signer, Denom: bk.BasketDenom, NewCurator: g.actor()})
+	nc := g.actor()
+	if g.hostile() && g.chance(0.15) {
+		nc = strings.ToUpper(signer) // a hand-over to oneself, spelled differently
+	}
+	return tx(&baskettypes.MsgUpdateCurator{Curator: signer, Denom: bk.BasketDenom, NewCurator: nc})
 }
 
 func (g *Gen) genUpdateDateCriteria() *eng.Tx {
@@ -941,8 +1018,13 @@ func (g *Gen) genBuy() *eng.Tx {
 			}
 		}
 	}
-	if g.hostile() && g.chance(0.1) {
+	if g.hostile() && g.chance(0.2) {
+		// buying one's own order (must be refused) — more often than not with the buyer's address in
+		// bech32's upper-case spelling: the same account, but not the same string as the stored seller
 		buyer = seller
+		if g.chance(0.6) {
+			buyer = strings.ToUpper(seller)
+		}
 	}
 	m := &markettypes.MsgBuyDirect{Buyer: buyer}
 	prevDenom := ""
